@@ -40,9 +40,11 @@ __all__ = [
 logger = logging.getLogger(__name__)
 
 
-def _redshift_histogram(patch: Patch, binning: Binning) -> NDArray:
+def _redshift_histogram(
+    patch_id: int, patch: Patch, binning: Binning
+) -> tuple[int, NDArray]:
     """Worker function that computes a redshift histgram from a given patch and
-    binning."""
+    binning, returns the patch ID along with the counts."""
     redshifts = patch.redshifts
     # same rule as used when building trees: (lo, hi] if closed on the right
     # side, [lo, hi) otherwise, values outside of the binning are discarded
@@ -52,7 +54,7 @@ def _redshift_histogram(patch: Patch, binning: Binning) -> NDArray:
     weights = patch.weights[mask] if patch.has_weights else None
 
     counts = np.bincount(bin_idx[mask] - 1, weights=weights, minlength=len(binning))
-    return counts.astype(np.float64)
+    return patch_id, counts.astype(np.float64)
 
 
 def resample_jackknife(observations: NDArray, patch_rows: bool = True) -> NDArray:
@@ -130,16 +132,19 @@ class HistData(CorrData):
 
         patch_count_iter = parallel.iter_unordered(
             _redshift_histogram,
-            catalog.values(),
+            catalog.items(),
             func_kwargs=dict(binning=config.binning),
+            unpack=True,
             max_workers=max_workers,
         )
         if progress:
             patch_count_iter = Indicator(patch_count_iter, len(catalog))
 
-        counts = np.empty((len(catalog), config.num_bins))
-        for i, patch_count in enumerate(patch_count_iter):
-            counts[i] = patch_count
+        # results arrive in arbitrary order, rows must follow the patch order
+        row_index = {patch_id: i for i, patch_id in enumerate(catalog.keys())}
+        counts = np.zeros((len(catalog), config.num_bins))
+        for patch_id, patch_count in patch_count_iter:
+            counts[row_index[patch_id]] = patch_count
         parallel.COMM.Bcast(counts, root=0)
 
         return cls(
